@@ -52,7 +52,7 @@ func (s *Sim) fireDue() {
 }
 
 func (s *Sim) anyEnabled() bool {
-	for _, t := range s.Tasks {
+	for _, t := range s.live {
 		if t.state == tsParked && s.ready(t) {
 			return true
 		}
